@@ -141,6 +141,15 @@ def run_shard(shard):
                     check_case(acc, m, "exec", "seed-layout")
         for s in EVAL_SEEDS:
             check_case(acc, s, "eval", "seed-eval")
+        # argument lists: every sequence of up to four argument kinds (those CPython refuses are skipped by the domain filter)
+        import itertools
+
+        kinds = ["x", "*r", "k=1", "**kw", "y for y in z", "(a := 1)", "*s, t"]
+        for n in range(1, 5):
+            for seq in itertools.product(kinds[:5] if n == 4 else kinds, repeat=n):
+                args = ", ".join(seq)
+                for tmpl in ("f({})\n", "class C({}): pass\n", "@dec({})\ndef g(): pass\n", "obj.m({}).attr = 1\n") if n < 4 else ("f({})\n",):
+                    check_case(acc, tmpl.format(args), "exec", "argument-orders")
         # the three line-end conventions of universal newlines, pure and mixed
         for s in gen_py.SEEDS:
             check_case(acc, s.replace("\n", "\r"), "exec", "seed-cr")
